@@ -41,6 +41,11 @@ type pathCfg struct {
 	// isolate, when set and true for a loop statement, replaces the loop by one
 	// Fragment event (the loop body is analysed separately as its own fragment).
 	isolate func(loop ast.Stmt) bool
+	// loopCount, when set and known for a loop, makes the enumeration run the body
+	// exactly n times (constant-trip loops such as `for i := 0; i < 3; i++`).
+	loopCount func(loop ast.Stmt) (int, bool)
+	// decide, when set, resolves a branch condition statically (1/0) or not (-1).
+	decide func(cond ast.Expr) int
 }
 
 type path struct {
@@ -66,7 +71,13 @@ func EnumPaths(p *core.Program, fd *ast.FuncDecl, unroll, maxPaths int) (paths [
 // EnumPathsOpt enumerates the paths of a statement list of fd with optional
 // clause merging and loop isolation.
 func EnumPathsOpt(p *core.Program, fd *ast.FuncDecl, list []ast.Stmt, unroll, maxPaths int, classKey func(*ast.CaseClause) string, isolate func(ast.Stmt) bool) (paths [][]Event, ok bool, why string) {
-	cfg := &pathCfg{p: p, maxPaths: maxPaths, unroll: unroll, stable: singleAssigned(p, fd), classKey: classKey, isolate: isolate}
+	return EnumPathsFull(p, fd, list, unroll, maxPaths, classKey, isolate, nil, nil)
+}
+
+// EnumPathsFull additionally takes a trip-count oracle for loops and a
+// condition oracle (1 true, 0 false, -1 unknown) that prunes decided branches.
+func EnumPathsFull(p *core.Program, fd *ast.FuncDecl, list []ast.Stmt, unroll, maxPaths int, classKey func(*ast.CaseClause) string, isolate func(ast.Stmt) bool, loopCount func(ast.Stmt) (int, bool), decide func(ast.Expr) int) (paths [][]Event, ok bool, why string) {
+	cfg := &pathCfg{p: p, maxPaths: maxPaths, unroll: unroll, stable: singleAssigned(p, fd), classKey: classKey, isolate: isolate, loopCount: loopCount, decide: decide}
 	start := []*path{{conds: map[string]bool{}}}
 	out := cfg.block(list, start)
 	if cfg.unsupported != "" {
@@ -220,6 +231,17 @@ func (c *pathCfg) branch(pts []*path, cond ast.Expr, thenF, elseF func([]*path) 
 		key = types.ExprString(cond)
 	}
 	var tIn, eIn []*path
+	if c.decide != nil && cond != nil {
+		if v := c.decide(cond); v != -1 {
+			for _, pt := range lv {
+				pt.ev = append(pt.ev, Event{Cond: cond, Taken: v == 1})
+			}
+			if v == 1 {
+				return append(dn, thenF(lv)...)
+			}
+			return append(dn, elseF(lv)...)
+		}
+	}
 	for _, pt := range lv {
 		if key != "" {
 			if v, seen := pt.conds[key]; seen {
@@ -324,6 +346,11 @@ func (c *pathCfg) stmt(s ast.Stmt, pts []*path) []*path {
 		if s.Init != nil {
 			lv = c.stmt(s.Init, lv)
 		}
+		if c.loopCount != nil {
+			if n, ok := c.loopCount(s); ok {
+				return append(dn, c.exact(lv, n, s.Body, s.Post)...)
+			}
+		}
 		return append(dn, c.loop(lv, s.Cond, s.Body, s.Post)...)
 	case *ast.RangeStmt:
 		if c.isolate != nil && c.isolate(s) {
@@ -333,6 +360,11 @@ func (c *pathCfg) stmt(s ast.Stmt, pts []*path) []*path {
 			return append(dn, lv...)
 		}
 		lv = c.calls(s.X, lv)
+		if c.loopCount != nil {
+			if n, ok := c.loopCount(s); ok {
+				return append(dn, c.exact(lv, n, s.Body, nil)...)
+			}
+		}
 		return append(dn, c.loop(lv, nil, s.Body, nil)...)
 	case *ast.BranchStmt:
 		switch s.Tok {
@@ -485,7 +517,14 @@ func (c *pathCfg) loop(in []*path, cond ast.Expr, body *ast.BlockStmt, post ast.
 				continue
 			}
 			q := pt.clone()
-			q.ev = append(q.ev, Event{Loop: -1})
+			if it >= c.unroll {
+				q.ev = append(q.ev, Event{Loop: -2}) // unrolling bound reached: loop state unknown from here
+			} else {
+				if cond != nil {
+					q.ev = append(q.ev, Event{Cond: cond, Taken: false})
+				}
+				q.ev = append(q.ev, Event{Loop: -1})
+			}
 			out = append(out, q)
 		}
 		if it >= c.unroll {
@@ -494,6 +533,9 @@ func (c *pathCfg) loop(in []*path, cond ast.Expr, body *ast.BlockStmt, post ast.
 		var next []*path
 		for _, pt := range cur {
 			if !pt.done {
+				if cond != nil {
+					pt.ev = append(pt.ev, Event{Cond: cond, Taken: true})
+				}
 				pt.ev = append(pt.ev, Event{Loop: it + 1})
 				next = append(next, pt)
 			}
@@ -525,4 +567,43 @@ func (c *pathCfg) loop(in []*path, cond ast.Expr, body *ast.BlockStmt, post ast.
 		}
 	}
 	return out
+}
+
+// exact runs a loop body exactly n times.
+func (c *pathCfg) exact(in []*path, n int, body *ast.BlockStmt, post ast.Stmt) []*path {
+	cur := in
+	var out []*path
+	for it := 0; it < n; it++ {
+		for _, pt := range cur {
+			if !pt.done {
+				pt.ev = append(pt.ev, Event{Loop: it + 1})
+			}
+		}
+		cur = c.block(body.List, cur)
+		var cont []*path
+		for _, pt := range cur {
+			if pt.done && len(pt.ev) > 0 && pt.ev[len(pt.ev)-1].Exit == "break" {
+				pt.ev = pt.ev[:len(pt.ev)-1]
+				pt.ev = append(pt.ev, Event{Loop: -1})
+				pt.done = false
+				out = append(out, pt)
+				continue
+			}
+			cont = append(cont, pt)
+		}
+		reopen(cont, "continue")
+		if post != nil {
+			cont = c.stmt(post, cont)
+		}
+		cur = cont
+		if c.unsupported != "" {
+			break
+		}
+	}
+	for _, pt := range cur {
+		if !pt.done {
+			pt.ev = append(pt.ev, Event{Loop: -1})
+		}
+	}
+	return append(out, cur...)
 }
